@@ -18,6 +18,7 @@ func (e *Engine) newCtx(key string) *FuncCtx {
 		params: map[*types.Var]bool{}, lets: map[string]*Val{}}
 	if c.contract != nil {
 		c.props = c.contract.Props
+		c.noMerge = c.contract.NoMerge
 	}
 	if fd == nil {
 		return c
